@@ -6,6 +6,8 @@ Boxed primitives: box_str/box_int/box_bool/box_real : T -> Obj with inverse unbo
 object) and the Python `==` of two boxed primitives.
 """
 import ast
+import sys
+import os
 
 import z3
 
@@ -728,6 +730,10 @@ class Dyn(Calls):
         return VInt(f)
 
     def bi_reversed(self, args, kwargs, node):
+        if isinstance(args[0], VObj):
+            args = [self.iter_view(args[0])] + list(args[1:])      # an opaque sequence object: its list view
+        if not isinstance(args[0], VCont):
+            raise Unsupported("reversed(%r)" % (args[0],))
         c = self.cont(args[0])
         if isinstance(c, EmptyV):
             return args[0]
@@ -887,13 +893,8 @@ class Dyn(Calls):
 
     def comprehension(self, n, kind):
         if len(n.generators) == 1 and not self.spec_mode:
-            it0 = self.ev(n.generators[0].iter)
-            if isinstance(it0, VObj) and (self.st.ghost.get("$boxed") or {}).get(z3.simplify(it0.t).get_id()) is None:
-                if not self.branch(it0.t != PyNone):
-                    raise PyRaise(VExc("TypeError", [VStr("'NoneType' object is not iterable")]))
-                self._pre_base = (n.generators[0].iter, self.obj_as_list(it0))
-            else:
-                self._pre_base = (n.generators[0].iter, it0)
+            it0 = self.iter_view(self.ev(n.generators[0].iter))     # opaque collection: its own iteration; `d.get(k, default)`: decided per path
+            self._pre_base = (n.generators[0].iter, it0)
         if kind == "set" and len(n.generators) == 1 and not n.generators[0].is_async and isinstance(n.generators[0].target, ast.Name):
             g = n.generators[0]
             it = self.ev(g.iter)
@@ -1368,6 +1369,14 @@ class Dyn(Calls):
         if isinstance(it, ast.Call) and isinstance(it.func, ast.Attribute) and it.func.attr in ("items", "keys", "values") and not it.args and not self.spec_mode:
             src = self.ev(it.func.value)
             keys, lookup = None, None
+            while isinstance(src, VObj) and z3.is_app_of(z3.simplify(src.t), z3.Z3_OP_ITE):
+                # dict.get(k, default) of a typed dict: "the stored value if present else the default" -- decide which on this path
+                c_, a_, b_ = z3.simplify(src.t).children()
+                src = VObj(a_ if self.branch(c_) else b_, src.cls)
+            if isinstance(src, VObj):
+                hit_ = (self.st.ghost.get("$boxed") or {}).get(z3.simplify(src.t).get_id())
+                if hit_ is not None:
+                    src = VCont(hit_[1])      # the object standing for a container built in this function (e.g. the `{}` default of dict.get): the container itself
             if isinstance(src, VObj) and (self.st.ghost.get("$boxed") or {}).get(z3.simplify(src.t).get_id()) is None:
                 if not self.branch(src.t != PyNone):
                     raise PyRaise(VExc("AttributeError", []))
@@ -1410,6 +1419,8 @@ class Dyn(Calls):
                 ast.fix_missing_locations(loop2)
                 ordinal = self.loop_ordinal_of(self.frame.fi, s)
                 return self.loop(loop2, loop2.target, keys, ordinal=ordinal)
+            if os.environ.get("PYVC_DEBUG_FOR"):
+                print("FOR-FALLTHROUGH", repr(src), type(self.cont(src)).__name__ if isinstance(src, VCont) else "", file=sys.stderr)
         return super().st_For(s)
 
     def coerce(self, v, ty):
@@ -1431,7 +1442,13 @@ class Dyn(Calls):
     def iter_view(self, it):
         """for x in <opaque collection object>: the object's own iteration (a sequence view whose length and items are functions of the object);
         iterating None raises TypeError."""
-        if isinstance(it, VObj) and not self.spec_mode and (self.st.ghost.get("$boxed") or {}).get(z3.simplify(it.t).get_id()) is None:
+        while isinstance(it, VObj) and not self.spec_mode and z3.is_app_of(z3.simplify(it.t), z3.Z3_OP_ITE):
+            c_, a_, b_ = z3.simplify(it.t).children()      # dict.get(k, default): decide on this path which one it is
+            it = VObj(a_ if self.branch(c_) else b_, it.cls)
+        if isinstance(it, VObj) and not self.spec_mode:
+            hit = (self.st.ghost.get("$boxed") or {}).get(z3.simplify(it.t).get_id())
+            if hit is not None:
+                return VCont(hit[1])
             if not self.branch(it.t != PyNone):
                 raise PyRaise(VExc("TypeError", [VStr("'NoneType' object is not iterable")]))
             return self.obj_as_list(it)
